@@ -13,6 +13,8 @@ import Robotools.Proofs.GenFns
 #print axioms Robotools.C05.pair_same_well
 #print axioms Robotools.C05.history_normalised
 #print axioms Robotools.C05.history_ideal_mixture
+#print axioms Robotools.C05.history_normalised_dist
+#print axioms Robotools.C05.history_ideal_mixture_dist
 #print axioms Robotools.C05.constructed_good
 #print axioms Robotools.CtorGood.mk_good
 #print axioms Robotools.CtorGood.trough_mk_good
